@@ -1,8 +1,7 @@
-"""pyvc.report -- decide one property: deductive units + bounded stand-ins, known findings, evidence."""
+"""pyvc.report -- decide one property: deductive units + bounded stand-ins, known findings, ledger, evidence."""
 from __future__ import annotations
 
 import fnmatch
-import hashlib
 import importlib
 import json
 import os
@@ -16,59 +15,39 @@ from . import driver
 from .driver import ROOT, EXIT_OK, EXIT_VIOLATION, EXIT_UNDECIDED, EXIT_CHECKER
 
 ASSUMPTIONS_COMMON = [
-    "encoder: pyvc's translation of the Python subset to SMT (guarded by mutation self-test and CPython cross-check, not proved)",
+    "encoder: pyvc's translation of the Python subset to SMT (guarded by mutation self-test and native replay of counterexamples, not proved)",
     "library models of builtins/stdlib/torch operations used by the functions under contract (listed under coverage.trusted_base)",
     "machine arithmetic treated as mathematical (ints exact; floats as reals) except obligations marked IEEE",
     "solvers z3 5.1 / cvc5 1.0.3: an unsat answer is accepted",
 ]
 
 
-def _consts_of(formulas):
-    out = {}
-    seen = set()
-    stack = list(formulas)
-    while stack:
-        x = stack.pop()
-        i = x.get_id()
-        if i in seen:
-            continue
-        seen.add(i)
-        if z3.is_quantifier(x):
-            stack.append(x.body())
-            continue
-        if z3.is_app(x):
-            if x.num_args() == 0 and x.decl().kind() == z3.Z3_OP_UNINTERPRETED:
-                out[x.decl().name()] = x
-            else:
-                stack.extend(x.children())
-    return out
+def ledger_path(prop):
+    return os.path.join(ROOT, "ledger", f"{prop}.json")
 
 
-def _region_formula(region, ob):
-    """known-finding region: python expression over the obligation's input constants"""
-    consts = _consts_of(list(ob.hyps) + [ob.goal])
-    env = {k: v for k, v in consts.items() if k.isidentifier()}
-    env.update({"And": z3.And, "Or": z3.Or, "Not": z3.Not, "Implies": z3.Implies, "ToReal": z3.ToReal})
+def load_ledger(prop):
     try:
-        return eval(region, {"__builtins__": {}}, env)
-    except Exception:
+        return json.load(open(ledger_path(prop)))
+    except FileNotFoundError:
         return None
 
 
-def _match_known(prop, ob, known):
-    for kf in known:
-        if kf.get("property") != prop:
-            continue
-        pat = kf.get("obligation", "*").replace("~", " ")
-        if fnmatch.fnmatch(ob.full_name(), pat) or fnmatch.fnmatch(ob.name, pat):
-            return kf
-    return None
+def unit_hashes(results):
+    """unit target -> {function qualname: source hash} over every function the verifier executed for it"""
+    out = {}
+    for r in results:
+        d = out.setdefault(r["unit"], {})
+        for f in r.get("functions", []):
+            if "sha256_16" in f:
+                d[f["qualname"]] = f["sha256_16"]
+    return out
 
 
 def run_property(prop, tier, seed, args):
-    from . import smt
+    from . import runner, smt
     t_start = time.time()
-    log = (lambda s: print(s)) if args.verbose else (lambda s: None)
+    log = (lambda s: print(s, flush=True)) if args.verbose else (lambda s: None)
     known = driver.load_known_findings()
     os.makedirs(os.path.join(ROOT, "evidence"), exist_ok=True)
     rep_dir = os.path.join(ROOT, "replays", prop)
@@ -76,85 +55,118 @@ def run_property(prop, tier, seed, args):
     for f in os.listdir(rep_dir):
         os.unlink(os.path.join(rep_dir, f))
 
-    violations = []       # (label, replay_path, confirmed)
-    known_hits = []
-    undecided = []
-    checker_errors = []
-
-    # ------------------------------------------------------------------ deductive part
-    ded = None
-    try:
-        ded = driver.run_deductive(prop, tier, seed, log)
-    except ModuleNotFoundError as e:
-        if f"contracts.{prop.lower()}" not in str(e):
-            raise
+    violations, known_hits, undecided, checker_errors = [], [], [], []
+    have_contracts = os.path.exists(os.path.join(ROOT, "contracts", f"{prop.lower()}.py"))
+    results = []
     ob_list = []
     n_ob = n_dis = 0
-    solver_time = 0.0
-    if ded is not None:
-        mod = ded["mod"]
-        by_unit_oos = {u["target"]: u["out_of_subset"] for u in ded["units"]}
-        for u in ded["units"]:
-            if u["out_of_subset"]:
-                undecided.append(f"{u['target']}: out-of-subset {u['out_of_subset'][0]}")
-            if u["obligations"] == 0 and not u["out_of_subset"]:
-                checker_errors.append(f"unit {u['target']} generated zero obligations (vacuous)")
-        for i, (ob, res) in enumerate(zip(ded["obligations"], ded["results"])):
-            n_ob += 1
-            solver_time += res.get("time", 0.0)
-            entry = {"name": ob.full_name(), "unit": ob.unit, "status": res["status"],
-                     "solver": res.get("solver"), "seconds": round(res.get("time", 0.0), 3)}
-            if ob.where:
-                entry["where"] = ob.where
-            if res["status"] == "unsat":
-                n_dis += 1
-                entry["status"] = "discharged"
-            elif res["status"] == "sat":
-                entry["status"] = "refuted"
-                kf = _match_known(prop, ob, known)
-                handled = False
-                if kf is not None:
-                    region = kf.get("region")
-                    outside = None
-                    if region:
-                        rf = _region_formula(region.replace("~", " "), ob)
-                        if rf is None:
-                            checker_errors.append(f"known-finding region {region!r} does not evaluate on {ob.full_name()}")
-                        else:
-                            # is the obligation refutable *outside* the recorded region?
-                            from .core import Obligation
-                            ob2 = Obligation(ob.name, list(ob.hyps) + [z3.Not(rf)], ob.goal)
-                            r2, _ = smt.discharge([ob2], timeout_ms=10000 if tier == "quick" else 60000)
-                            outside = r2[0]["status"]
-                    if not region or outside == "unsat":
-                        known_hits.append((kf, ob))
-                        entry["status"] = "refuted-known-finding"
-                        handled = True
-                    elif outside == "sat":
-                        res = r2[0]  # report the new counterexample
-                    else:
-                        entry["status"] = "refuted-known-finding (outside region undecided)"
-                        known_hits.append((kf, ob))
-                        undecided.append(f"{ob.full_name()}: outside the known-finding region: {outside}")
-                        handled = True
-                if not handled:
-                    path, confirmed = write_replay(prop, rep_dir, i, ob, res, ded, mod)
-                    violations.append((ob.full_name(), path, confirmed))
+    solver_time = symex_time = 0.0
+    mod = None
+    if have_contracts:
+        results = runner.run_all(prop, tier, known)
+        mod = runner._STATE["mod"]
+        ledger = load_ledger(prop)
+        hashes = unit_hashes(results)
+        if getattr(args, "update_ledger", False):
+            os.makedirs(os.path.join(ROOT, "ledger"), exist_ok=True)
+        changed_units = set()
+        if ledger is not None:
+            for u, hs in hashes.items():
+                if ledger.get("units", {}).get(u, {}).get("hashes") != hs:
+                    changed_units.add(u)
+        # retry the unknowns of changed units with a long budget before calling them failed
+        retry = [(r, e) for r in results for e in r["obligations"] if e["status"] == "unknown" and e.get("smt2")
+                 and (r["unit"] in changed_units)]
+        if retry:
+            import multiprocessing as mp
+            work = [(i, e["smt2"], 60000, True) for i, (r, e) in enumerate(retry)]
+            with mp.get_context("fork").Pool(min(16, len(work))) as pool:
+                for i, res in pool.imap_unordered(smt._work, work, chunksize=1):
+                    r, e = retry[i]
+                    e["retry"] = {"status": res["status"], "solver": res.get("solver"), "seconds": round(res.get("time", 0), 2),
+                                  "detail": res.get("detail")}
+                    if res["status"] == "unsat":
+                        e["status"] = "discharged"
+                        e["solver"] = res.get("solver")
+                    elif res["status"] == "sat":
+                        e["status"] = "refuted"
+                        e["model"] = {k: v for k, v in res.get("model", {}).items() if "!" not in k}
+                        e["confirmed"] = False
+        idx = 0
+        for r in results:
+            log(f"  {r['unit']} [{r['cfg']}]: {len(r['obligations'])} obligations, {r['paths']} paths, {r['wall']}s"
+                + (f"  OUT-OF-SUBSET {r['oos'][:1]}" if r["oos"] else "") + (f"  ERROR {r['error']}" if r.get("error") else ""))
+            symex_time += r.get("symex_s", 0)
+            if r.get("error"):
+                checker_errors.append(f"job {r['job']}: {r['error']}")
+                if args.verbose:
+                    print(r.get("trace"))
+            if r["oos"]:
+                undecided.append(f"{r['unit']} [{r['cfg']}]: out of the verifier's subset: {r['oos'][0]}")
+            if not r["obligations"] and not r["oos"] and not r.get("error"):
+                checker_errors.append(f"unit {r['unit']} [{r['cfg']}] generated zero obligations (vacuous)")
+            for e in r["obligations"]:
+                idx += 1
+                n_ob += 1
+                solver_time += e.get("seconds", 0)
+                if e.get("checker_error"):
+                    checker_errors.append(e["checker_error"])
+                entry = {k: e[k] for k in ("name", "unit", "status", "solver", "seconds", "where") if e.get(k) is not None}
+                if e["status"] == "discharged":
+                    n_dis += 1
+                elif e["status"] == "refuted-known-finding":
+                    known_hits.append(e["known"])
+                    if e.get("outside_region"):
+                        undecided.append(f"{e['name']}: outside the known-finding region: undecided")
+                elif e["status"] == "refuted":
+                    path = os.path.join(rep_dir, f"ob_{idx:04d}.json")
+                    rec = {"property": prop, "obligation": e["name"], "unit": e["unit"], "where": e.get("where"),
+                           "solver": e.get("solver"), "solver_model": e.get("model"), "goal": e.get("goal"),
+                           "replay": e.get("replay")}
+                    if not e.get("confirmed"):
+                        rec["note"] = ("no-failing-input-found: the obligation is refuted by the solver (model above, "
+                                       "SMT-LIB below); no concrete failing input was reproduced on the real code")
+                        rec["smt2"] = e.get("smt2")
+                    json.dump(rec, open(path, "w"), indent=1, default=str)
+                    violations.append((e["name"], path, bool(e.get("confirmed"))))
                     entry["replay"] = os.path.relpath(path, ROOT)
-                    entry["replay_confirmed"] = confirmed
+                    entry["replay_confirmed"] = bool(e.get("confirmed"))
+                else:
+                    why = f"{e.get('detail')}" + (f"; retry: {e['retry']}" if e.get("retry") else "")
+                    if r["unit"] in changed_units:
+                        # the unit's source differs from the ledger (unchanged tree) and an obligation that is
+                        # discharged there no longer is: a failed obligation, reported without a failing input
+                        entry["status"] = "failed (was discharged for the ledger's source; undischarged after 60 s retry, both solvers)"
+                        path = os.path.join(rep_dir, f"ob_{idx:04d}.json")
+                        json.dump({"property": prop, "obligation": e["name"], "unit": e["unit"], "where": e.get("where"),
+                                   "note": "no-failing-input-found: this obligation is discharged for the source recorded in the "
+                                           "ledger (unchanged tree); with the current source of the unit it is not, and neither "
+                                           "solver finds a model within the budget",
+                                   "changed_functions": sorted(k for k, v in hashes.get(r["unit"], {}).items()
+                                                               if ledger["units"].get(r["unit"], {}).get("hashes", {}).get(k) != v),
+                                   "solver_output": why, "smt2": e.get("smt2")}, open(path, "w"), indent=1, default=str)
+                        violations.append((e["name"], path, False))
+                        entry["replay"] = os.path.relpath(path, ROOT)
+                    else:
+                        undecided.append(f"{e['name']}: {why}")
+                ob_list.append(entry)
+        if getattr(args, "update_ledger", False):
+            if n_dis + sum(1 for e in ob_list if e["status"] == "refuted-known-finding") == n_ob and not undecided:
+                json.dump({"property": prop,
+                           "units": {u: {"hashes": hs, "obligations": sum(len(r["obligations"]) for r in results if r["unit"] == u)}
+                                     for u, hs in hashes.items()}},
+                          open(ledger_path(prop), "w"), indent=1, sort_keys=True)
+                print(f"ledger written: {ledger_path(prop)}")
             else:
-                undecided.append(f"{ob.full_name()}: {res['status']} ({res.get('detail', '')})")
-            ob_list.append(entry)
+                print("ledger NOT written: the run is not green")
+        elif ledger is None:
+            checker_errors.append("no ledger for this property (run ./check PROP --update-ledger on the unchanged tree)")
 
     # ------------------------------------------------------------------ bounded stand-ins
     bounded = []
-    try:
+    smod = None
+    if os.path.exists(os.path.join(ROOT, "standin", f"{prop.lower()}.py")):
         smod = importlib.import_module(f"standin.{prop.lower()}")
-    except ModuleNotFoundError as e:
-        if f"standin.{prop.lower()}" not in str(e) and "standin" not in str(e):
-            raise
-        smod = None
-    if smod is not None:
         for fn in smod.STANDINS:
             t0 = time.time()
             try:
@@ -171,54 +183,74 @@ def run_property(prop, tier, seed, args):
                     if k.get("property") == prop and k.get("standin") and fnmatch.fnmatch(v["key"], k["standin"].replace("~", " ")):
                         kf = k
                 if kf is not None:
-                    known_hits.append((kf, None))
+                    known_hits.append(kf)
                     continue
                 path = os.path.join(rep_dir, f"standin_{fn.__name__}_{len(violations)}.json")
                 json.dump({"property": prop, "kind": "bounded stand-in (run-time contract on the real function)",
                            "standin": fn.__name__, **v}, open(path, "w"), indent=1, default=str)
                 violations.append((f"stand-in {fn.__name__}: {v['key']}", path, True))
+            log(f"  stand-in {fn.__name__}: {r.get('evaluations')} evaluations, {r['wall_s']}s")
             bounded.append(r)
 
     # ------------------------------------------------------------------ verdict + evidence
-    seen_kf = set()
-    for kf, ob in known_hits:
-        key = (kf.get("obligation"), kf.get("standin"), kf.get("what"))
-        if key in seen_kf:
+    seen_kf = []
+    for kf in known_hits:
+        if kf.get("what") in seen_kf:
             continue
-        seen_kf.add(key)
+        seen_kf.append(kf.get("what"))
         print(f"KNOWN-FINDING: property={prop} {kf.get('what', '')}")
+    shown = 0
     for label, path, confirmed in violations:
         print(f"VIOLATION property={prop} replay={path}" + ("" if confirmed else " no-failing-input-found"))
-        print(f"  failed obligation: {label}")
-    for u in undecided:
-        print(f"UNDECIDED property={prop} {u}")
+        print(f"  failed obligation: {label}"[:300])
+    for u in undecided[:40]:
+        print(f"UNDECIDED property={prop} {u}"[:400])
     for c in checker_errors:
-        print(f"CHECKER-ERROR property={prop} {c}")
+        print(f"CHECKER-ERROR property={prop} {c}"[:400])
 
     wall = time.time() - t_start
-    proof_ok = ded is not None and n_ob > 0 and n_dis == n_ob and not violations
-    ev = {
-        "property_id": prop, "tier": tier if tier in ("quick", "thorough") else "quick", "seed": seed,
-        "wall_s": round(wall, 2), "violations": len(violations),
-    }
+    ev = {"property_id": prop, "tier": tier if tier in ("quick", "thorough") else "quick", "seed": seed,
+          "wall_s": round(wall, 2), "violations": len(violations)}
     cov = {}
-    if ded is not None:
-        refuted_known = sum(1 for e in ob_list if e["status"].startswith("refuted-known"))
+    refuted_known = sum(1 for e in ob_list if e["status"] == "refuted-known-finding")
+    if have_contracts:
+        functions = {}
+        units = {}
+        models_used = set()
+        vac = set()
+        samples = []
+        for r in results:
+            for f in r.get("functions", []):
+                functions[f["qualname"]] = f
+            u = units.setdefault(r["unit"], {"target": r["unit"], "doc": r.get("doc", ""), "configs": 0, "paths": 0,
+                                             "obligations": 0, "out_of_subset": [], "wall_s": 0.0})
+            u["configs"] += 1
+            u["paths"] += r["paths"]
+            u["obligations"] += len(r["obligations"])
+            u["out_of_subset"] += r["oos"]
+            u["wall_s"] = round(u["wall_s"] + r["wall"], 2)
+            models_used |= set(r.get("models_used", []))
+            vac |= set(r.get("vacuous", []))
+            for e in r["obligations"]:
+                if e.get("sample_smt2") and len(samples) < 2:
+                    samples.append({"obligation": e["name"], "smt2": e["sample_smt2"]})
         cov.update({
-            "obligations": n_ob, "discharged": n_dis,
-            "refuted_known_findings": refuted_known,
-            "refuted_new": sum(1 for e in ob_list if e["status"] == "refuted"),
-            "undecided": [u for u in undecided],
-            "checker_cmd": f"./check {prop} --tier {tier}   (pyvc: VCs from the AST of the real functions; z3-solver {z3.get_version_string()} python API, /usr/bin/cvc5 1.0.3 on z3's unknowns" + ("; both solvers on every obligation)" if tier == "thorough" else ")"),
-            "trusted_base": ["pyvc symbolic executor (/verif/pyvc)"] + [f"library model: {m}" for m in ded["models_used"]]
-                            + [f"assumed callee contract: {s.target} -- {(s.__doc__ or '').strip().splitlines()[0] if s.__doc__ else ''}" for s in getattr(ded["mod"], "CALLEES", [])],
-            "functions": sorted(ded["eng"].functions.values(), key=lambda d: d["qualname"]),
-            "units": ded["units"],
+            "obligations": n_ob, "discharged": n_dis, "refuted_known_findings": refuted_known,
+            "failed_or_refuted_new": len([v for v in violations if not v[0].startswith("stand-in")]),
+            "undecided": undecided,
+            "checker_cmd": f"./check {prop} --tier {tier}   (pyvc: VCs from the AST of the real functions; z3-solver "
+                           f"{z3.get_version_string()} python API, /usr/bin/cvc5 1.0.3 on z3's unknowns"
+                           + ("; both solvers on every obligation)" if tier == "thorough" else ")"),
+            "trusted_base": ["pyvc symbolic executor (/verif/pyvc)"] + [f"library model: {m}" for m in sorted(models_used)]
+                            + [f"assumed callee contract: {s.target} -- {(s.__doc__ or '').strip().splitlines()[0] if s.__doc__ else ''}"
+                               for s in getattr(mod, "CALLEES", [])],
+            "functions": sorted(functions.values(), key=lambda d: d["qualname"]),
+            "units": list(units.values()),
             "obligation_list": ob_list,
-            "solver_time_s": round(solver_time, 2), "symex_time_s": round(ded["t_symex"], 2),
-            "vacuous_asserts_in_code": sorted(set(ded["eng"].vacuous_asserts)),
-            "not_decided": getattr(ded["mod"], "NOT_DECIDED", []),
-            "samples": [t[:1500] for t in ded["texts"][:2]],
+            "solver_time_s": round(solver_time, 2), "symex_time_s": round(symex_time, 2),
+            "vacuous_asserts_in_code": sorted(vac),
+            "not_decided": getattr(mod, "NOT_DECIDED", []),
+            "samples": samples,
         })
     if bounded:
         cov["bounded"] = bounded
@@ -228,26 +260,24 @@ def run_property(prop, tier, seed, args):
         cov.setdefault("samples", [])
         for b in bounded:
             cov["samples"].extend(b.get("samples", [])[:2])
-    if ded is not None and proof_ok and n_dis == n_ob and not any(e["status"].startswith("refuted") for e in ob_list):
+    if have_contracts and n_ob > 0 and n_dis == n_ob and not violations and not undecided:
         ev["level"] = "proof"
-    elif ded is not None:
+    elif have_contracts:
         ev["level"] = "other"
-        cov["explanation"] = (f"deductive obligations: {n_dis} discharged of {n_ob}; "
-                              f"{sum(1 for e in ob_list if e['status'].startswith('refuted-known'))} refuted and listed as known findings; "
-                              f"{len(undecided)} undecided; {len(violations)} new violations. "
-                              "Level 'proof' is only written when every obligation is discharged.")
+        cov["explanation"] = (f"deductive obligations: {n_dis} discharged of {n_ob}; {refuted_known} refuted and listed as known "
+                              f"findings; {len(undecided)} undecided; {len(violations)} violations. Level 'proof' is written "
+                              "only by a run in which every obligation is discharged.")
     else:
         ev["level"] = "exploration"
     ev["coverage"] = cov
-    ev["assumptions"] = ASSUMPTIONS_COMMON + (list(getattr(ded["mod"], "ASSUMPTIONS", [])) if ded else []) + \
+    ev["assumptions"] = ASSUMPTIONS_COMMON + (list(getattr(mod, "ASSUMPTIONS", [])) if mod else []) + \
         (list(getattr(smod, "ASSUMPTIONS", [])) if smod else [])
-    ev["known_findings_reported"] = [kf.get("what") for kf, _ in known_hits]
+    ev["known_findings_reported"] = seen_kf
     path = os.path.join(ROOT, "evidence", f"{prop}.json")
     json.dump(ev, open(path, "w"), indent=1, default=str)
     try:
         import jsonschema
-        schema = json.load(open("/root/.vp/EVIDENCE.schema.json"))
-        jsonschema.validate(json.load(open(path)), schema)
+        jsonschema.validate(json.load(open(path)), json.load(open("/root/.vp/EVIDENCE.schema.json")))
     except FileNotFoundError:
         pass
     except Exception as e:
@@ -263,35 +293,3 @@ def run_property(prop, tier, seed, args):
     if undecided:
         return EXIT_UNDECIDED
     return EXIT_OK
-
-
-def write_replay(prop, rep_dir, i, ob, res, ded, mod):
-    """replay the solver's counterexample on the real code when the spec knows how"""
-    model = res.get("model", {})
-    user_model = {k: v for k, v in model.items() if "!" not in k}
-    rec = {"property": prop, "obligation": ob.full_name(), "unit": ob.unit, "where": ob.where,
-           "solver": res.get("solver"), "solver_model": user_model,
-           "goal": str(ob.goal)[:2000]}
-    confirmed = False
-    spec = None
-    for s in getattr(mod, "UNITS", []):
-        if s.target == ob.unit:
-            spec = s
-    rp = getattr(spec, "replay", None)
-    from . import replay as _replay
-    try:
-        out = rp(model, ob) if rp is not None else None
-        if out is None:
-            out = _replay.generic_replay(ob)
-        if out is not None:
-            rec["replay"] = out
-            confirmed = bool(out.get("confirmed"))
-    except Exception as e:
-        rec["replay_error"] = repr(e) + traceback.format_exc()[-800:]
-    if not confirmed:
-        rec["note"] = ("no-failing-input-found: the obligation is refuted by the solver (model above, smt2 below); "
-                       "no concrete failing input was reproduced on the real code")
-        rec["smt2"] = ded["texts"][i][:20000]
-    path = os.path.join(rep_dir, f"ob_{i:04d}.json")
-    json.dump(rec, open(path, "w"), indent=1, default=str)
-    return path, confirmed
